@@ -8,11 +8,13 @@ import (
 	"fmt"
 	"log"
 	"os"
+	"runtime/debug"
 	"strings"
 	"sync"
 	"syscall"
 	"testing"
 	"testing/synctest"
+	"time"
 
 	"github.com/koron-go/z80"
 	"github.com/koron-go/z80/internal/tinycpm"
@@ -67,6 +69,9 @@ type C18Sc struct {
 	Defaults bool `json:"defaults,omitempty"`
 	// ForkAtBP: whenever Run has returned, the host carries on with a by-value copy of the CPU struct
 	ForkAtBP bool `json:"fork_at_bp,omitempty"`
+	// Rotate > 0: the console re-points itself - from inside its Rotate-th Write it calls SetStdout with
+	// its successor (a rotating / line-splitting console); the stream continues there
+	Rotate int `json:"rotate,omitempty"`
 	// FuncWriter: the writers given to SetStdout are values of a func type with a Write method (an adapter,
 	// like http.HandlerFunc): legal io.Writers that cannot be compared with ==
 	FuncWriter bool      `json:"func_writer,omitempty"`
@@ -253,6 +258,9 @@ func c18GenOne(r *world.Rng, tier string, n int) *C18Sc {
 	}
 	sc.ForkAtBP = r.Chance(1, 4)
 	sc.FuncWriter = !sc.ByteWriter && !sc.FileConsole && r.Chance(1, 5)
+	if len(sc.WriteFail) == 0 && !sc.ByteWriter && !sc.FileConsole && !sc.FuncWriter && len(sc.CancelAt) == 0 && r.Chance(1, 10) {
+		sc.Rotate = r.Range(1, 6) // (not in the bubble scenarios: only the run under the real-time clock can report a machine that blocks for ever)
+	}
 	if len(sc.WriteFail) == 0 && !sc.ByteWriter && !sc.FileConsole && sc.PreWriter == "" && len(sc.CancelAt) == 0 && r.Chance(1, 10) {
 		sc.Defaults = true
 	}
@@ -325,6 +333,11 @@ func (w *faultWriter) Write(p []byte) (int, error) {
 // return address after each BDOS call, the expected console stream and the
 // number of warning-producing port accesses.
 func c18Assemble(sc *C18Sc) (prog []uint8, rets []uint16, expect []byte, warns int, strs []world.Seg) {
+	// warns: the number of DIFFERENT (direction, port) pairs the program touches outside port-0 output: every
+	// one of them produces a warning - whether an implementation repeats it for every further access to the
+	// same port (the bundled one does) or says it once is its own business
+	offending := map[int]bool{}
+	defer func() { warns = len(offending) }()
 	addr := func() uint16 { return tinycpm.Start + uint16(len(prog)) }
 	for _, it := range sc.Items {
 		switch it.Kind {
@@ -343,13 +356,13 @@ func c18Assemble(sc *C18Sc) (prog []uint8, rets []uint16, expect []byte, warns i
 			prog = append(prog, f...)
 		case "out":
 			prog = append(prog, 0x3e, it.Ch, 0xd3, it.Port)
-			warns++
+			offending[0x100|int(it.Port)] = true
 		case "in":
 			prog = append(prog, 0xdb, it.Port)
-			warns++
+			offending[int(it.Port)] = true
 		case "inc":
 			prog = append(prog, 0x0e, it.Port, 0xed, 0x40|*it.Reg<<3) // LD C,port ; IN r,(C)
-			warns++
+			offending[int(it.Port)] = true
 		case "outc":
 			reg := uint8(2)
 			if it.Reg != nil {
@@ -408,7 +421,25 @@ func (c18) Exec(sci interface{}, env *Env) (res *Violation) {
 		return nil
 	}
 	if len(sc.CancelAt) == 0 {
-		return c18Run(sc, env, false)
+		// under a real-time clock: a machine that blocks for ever inside a console or logger call never ends
+		// its run (statistics are collected privately: the goroutine may never come back)
+		pe := env.Private()
+		done := make(chan *Violation, 1)
+		go func() {
+			defer func() {
+				if r := recover(); r != nil {
+					done <- &Violation{Oracle: panicOracle(debug.Stack()), Detail: fmt.Sprint(r)}
+				}
+			}()
+			done <- c18Run(sc, pe, false)
+		}()
+		select {
+		case v := <-done:
+			env.Merge(pe)
+			return v
+		case <-time.After(60 * time.Second):
+			return viol("end-state", "the machine's run did not come back within 60 s of real time (a program of %d items; the tick budget of 40 million accesses was not reached either): a jump to address 0 must end the run", len(sc.Items))
+		}
 	}
 	// cancellation schedules run inside a synctest bubble so that "the watcher
 	// has published" is a known instant (see C13)
@@ -549,6 +580,19 @@ func c18Run(sc *C18Sc, env *Env, bubble bool) (res *Violation) {
 		io.SetStdout(f)
 	} else if sc.ByteWriter {
 		io.SetStdout(&byteFaultWriter{fw})
+	} else if sc.Rotate > 0 && !sc.Defaults {
+		// both generations of the console keep the same books
+		n := 0
+		var first funcWriter
+		first = func(p []byte) (int, error) {
+			n++
+			if n == sc.Rotate {
+				io.SetStdout(funcWriter(fw.Write))
+				env.Fire("console-repointed-from-inside-write")
+			}
+			return fw.Write(p)
+		}
+		io.SetStdout(first)
 	} else if sc.FuncWriter {
 		io.SetStdout(funcWriter(fw.Write))
 		env.Fire("console-is-a-func-adapter")
@@ -732,7 +776,9 @@ func c18Run(sc *C18Sc, env *Env, bubble bool) (res *Violation) {
 			return viol("second-program", "a second program loaded on the same machine and driven by Step did not reach FF03 (PC=%04x, %d console bytes so far)", cpu.PC, len(fw.accepted))
 		}
 		expect = append(expect, expect2...)
-		warns += warns2
+		if warns2 > warns {
+			warns = warns2 // (a lower bound of the different pairs of both programs together)
+		}
 		prog, strs = prog2, strs2
 		env.Fire("second-program-step-driven-on-the-same-machine")
 	}
@@ -756,6 +802,20 @@ func c18Run(sc *C18Sc, env *Env, bubble bool) (res *Violation) {
 		}
 		if cpu.SP != sc.SP {
 			return viol("returns-to-caller", "final SP=%04x, want %04x", cpu.SP, sc.SP)
+		}
+		if len(sc.Events) == 0 && len(sc.CancelAt) == 0 && len(sc.Second) == 0 && !bubble {
+			// a finished machine stays finished: a host that calls Run again (a `for { Run }` driver) finds
+			// it halted at FF03 again, and nothing more reaches the console
+			n0 := len(console())
+			for k := 0; k < 2; k++ {
+				if err := cpu.Run(context.Background()); err != nil || cpu.PC != 0xff03 || !cpu.HALT || cpu.SP != sc.SP {
+					return viol("end-state", "Run called again on the machine that had ended its run halted at FF03: returned %v with PC=%04x HALT=%t SP=%04x (was %04x)", err, cpu.PC, cpu.HALT, cpu.SP, sc.SP)
+				}
+			}
+			if n := len(console()); n != n0 {
+				return viol("console-stream", "Run called again on the finished machine sent %d more bytes to the console", n-n0)
+			}
+			env.Fire("run-again-on-the-finished-machine")
 		}
 	}
 	if pre.Len() != 0 || len(prePlain.all) != 0 {
@@ -808,7 +868,7 @@ func c18Run(sc *C18Sc, env *Env, bubble bool) (res *Violation) {
 	// (that nothing else ever warns is not part of the statement - e.g. logging a failed console write
 	// would be a reasonable thing to do - so only the lower bound is demanded)
 	if lines < warns {
-		return viol("warnings", "%d port accesses outside port-0 output, only %d warning lines", warns, lines)
+		return viol("warnings", "the program touches %d different (direction, port) pairs outside port-0 output, only %d warning lines", warns, lines)
 	}
 	if warns > 0 {
 		env.FireN("warning-path", uint64(warns))
